@@ -686,6 +686,15 @@ func (n *Normer) normCall(x *ssa.Call) Poly {
 			if lv, ok := n.sliceLen[args[0]]; ok {
 				return n.Norm(lv)
 			}
+			// len(x[lo:hi]) = hi - lo (the slice expression panics otherwise)
+			_, named := n.Bind[cc.Args[0]]
+			if sl, ok := cc.Args[0].(*ssa.Slice); ok && sl.High != nil && sl.Max == nil && !named {
+				lo := pConst(0)
+				if sl.Low != nil {
+					lo = n.Norm(sl.Low)
+				}
+				return pAdd(n.Norm(sl.High), lo, -1)
+			}
 		}
 		if b.Name() == "len" || b.Name() == "cap" {
 			// len of a constant string folds
